@@ -24,7 +24,7 @@ var domTags = []string{"div", "p", "span", "b", "i", "ul", "li", "a", "br", "img
 var domSpecialTags = []string{"template", "script", "style"}
 var domAttrNames = []string{"class", "id", "title", "href", "data-x", "alt", "style", "name", "value", "aria-label", "x:y"}
 var domDirectiveAttrs = []string{"v-if", "v-for", "v-html", "v-show", "v-once", "v-once-id", "v-keep", "v-pre", "[lit]", "[v-if]", ":bound", "v-bind:x", "@click"}
-var hostileStrings = []string{"", "word", "a b", "a < b", "a > b", "x & y", "&amp;", "&lt;b&gt;", "<b>x</b>", `"q"`, "'s'", `"><script>x</script>`, "a;b", "&#39;", "&#", "{{ x }}", "  padded  ", "\n", "line1\nline2", "&copy;", "&amp", "é☃", "</p>", "\u00a0", "\u2003", "\u3000", " \u00a0 ", "\t\n\f ", "\u0085", "\u00a0x", "<!-- c -->", "a&b;c", "1 < 2 && 3 > 2"}
+var hostileStrings = []string{"", "word", "a b", "a < b", "a > b", "x & y", "&amp;", "&lt;b&gt;", "<b>x</b>", `"q"`, "'s'", `"><script>x</script>`, "a;b", "&#39;", "&#", "{{ x }}", "  padded  ", "\n", "line1\nline2", "&copy;", "&amp", "é☃", "</p>", "\u00a0", "\u2003", "\u3000", " \u00a0 ", "\t\n\f ", "\u0085", "\u00a0x", "<!-- c -->", "a&b;c", "1 < 2 && 3 > 2", "a\rb", "\r", "x\r\ny", "a\r&b", "\rlead", "trail\r"}
 
 type domGen struct {
 	r       *rand.Rand
@@ -245,6 +245,19 @@ func (g *srcGen) fragment() string {
 		}
 	}
 	return sb.String()
+}
+
+// c02Lorem: n bytes of words (no markup, no character that needs escaping)
+func c02Lorem(n int) string {
+	words := []string{"lorem", "ipsum", "dolor", "sit", "amet", "consectetur", "adipiscing", "elit", "sed", "do"}
+	var b strings.Builder
+	for i := 0; b.Len() < n; i++ {
+		if i > 0 {
+			b.WriteByte(' ')
+		}
+		b.WriteString(words[i%len(words)])
+	}
+	return b.String()[:n]
 }
 
 var wsRe = regexp.MustCompile(`\s+`)
@@ -600,6 +613,18 @@ func runC02(r *Run, replay *Case) {
 		r.Add(roundtripCase(src, true))
 		r.Add(roundtripCase(src, false))
 	}
+	// LONG pieces: one text node, one attribute value, one start tag of several kilobytes (whatever buffering sits between the serialiser and
+	// the destination, the pieces arrive in the order they were written)
+	for _, n := range []int{4000, 4095, 4096, 4097, 5000, 9000, 20000} {
+		for _, src := range []string{
+			`<div class="post"><h1>Title</h1><p>` + c02Lorem(n) + `</p><footer>end</footer></div>`,
+			`<div><p title="` + c02Lorem(n) + `">x</p><i>after</i></div>`,
+			"<!DOCTYPE html><html><head><title>t</title></head><body><h1>Title</h1><p>" + c02Lorem(n) + "</p><p>tail</p></body></html>",
+		} {
+			r.Add(roundtripCase(src, true))
+			r.Add(roundtripCase(src, false))
+		}
+	}
 	g := &srcGen{r: r.Rng}
 	for i := 0; i < nRT; i++ {
 		src := g.fragment()
@@ -620,6 +645,7 @@ func runC02(r *Run, replay *Case) {
 		{"brace-after", "{n:", "}"}, {"brace-after-semi", ".b{color:", "};"}}
 	vals = append(vals, "</textarea><b>x</b>", "</title><meta name=x>", "Q&amp;A", "&lt;")
 	// values of several lines: their line breaks and the indentation of their continuation lines are part of the value
+	vals = append(vals, c02Lorem(4096), c02Lorem(5000), "<b>"+c02Lorem(9000)+"</b>")
 	vals = append(vals, "<pre>if x {\n\treturn\n}</pre>", "line one\nline two\n  indented three", "<ul>\n<li>a</li>\n</ul>", "a\n\nb", "<textarea>x\ny</textarea>")
 	for _, kind := range []string{"text", "attr", "bound", "vhtml", "textarea", "title", "tplvhtml", "vhtml-nested", "vtext-nested"} {
 		for _, nb := range nbs {
